@@ -170,5 +170,35 @@ try:
 except Exception as e:
     show("D10", "rm --cached d/e/z RAISES %s: %s" % (type(e).__name__, e), "removes the entry (git: rm 'd/e/z')")
 
+# D11 — restoring a path whose bytes are already right leaves a wrong executable bit (and checkout(paths=) then stages it)
+r, root = repo({b"a": b"AB"})
+os.chmod(os.path.join(root, b"a"), 0o755)
+porcelain.add(r, paths=["a"])
+r.get_worktree().commit(message=b"x", committer=b"C <c@example.com>", author=b"A <a@example.com>")
+os.chmod(os.path.join(root, b"a"), 0o644)
+porcelain.reset_file(r, "a")
+show("D11a", "reset_file('a') after chmod -x: mode %o" % (os.stat(os.path.join(root, b"a")).st_mode & 0o777), "755 (HEAD has 100755)")
+porcelain.checkout(r, paths=["a"])
+show("D11b", "checkout(paths=['a']): file mode %o, index mode %o" % (os.stat(os.path.join(root, b"a")).st_mode & 0o777, r.open_index()[b"a"].mode),
+     "755 / 100755  (git checkout HEAD -- a)")
+
+# D12 — a file deleted by hand survives in the index when switching to a branch that does not have it
+r, root = repo({b"a": b"x", b"b": b"y"})
+porcelain.branch_create(r, "other")
+porcelain.checkout(r, "other")
+porcelain.remove(r, paths=["a"])
+r.get_worktree().commit(message=b"no a", committer=b"C <c@example.com>", author=b"A <a@example.com>")
+porcelain.checkout(r, "master")
+os.unlink(os.path.join(root, b"a"))
+porcelain.checkout(r, "other")
+show("D12", "rm a; checkout other: index %s, %s" % (sorted(r.open_index()), st(r)), "index [b'b'], clean  (git: clean)")
+
+# D13 — a negation in a nested .gitignore does not override the parent's pattern
+r, root = repo({b".gitignore": b"*.log\n", b"sub/.gitignore": b"!keep.log\n", b"sub/t": b"x"})
+for name in (b"sub/keep.log", b"sub/other.log", b"top.log"):
+    with open(os.path.join(root, name), "wb") as f:
+        f.write(b"k")
+show("D13", st(r, untracked_files="all"), "untracked=[b'sub/keep.log']  (git status: ?? sub/keep.log)")
+
 shutil.rmtree(base, ignore_errors=True)
 sys.exit(0)
